@@ -15,8 +15,11 @@ type blkdef = { parent : int; number : n; kind : int; arrival : z }
 
 let check inp obs =
   let f = split_ws inp in
-  let rootnum, nblk, rest = match f with
-    | "t" :: rn :: nb :: rest -> n_of_hex rn, hexi nb, rest
+  (* "t": lib/blocktree harness; "bs": dot/state harness (BlockState.BestBlockHash, the root is
+     the genesis block) -- same observables, same model *)
+  let via_state, rootnum, nblk, rest = match f with
+    | "t" :: rn :: nb :: rest -> false, n_of_hex rn, hexi nb, rest
+    | "bs" :: nb :: rest -> true, N0, hexi nb, rest
     | _ -> fail "C16: bad input %s" inp in
   let rec take k l acc = if k = 0 then (List.rev acc, l) else
       match l with x :: r -> take (k - 1) r (x :: acc) | [] -> fail "C16: short input" in
@@ -124,6 +127,7 @@ let check inp obs =
    | None -> tag "root-only");
   tag (Printf.sprintf "orders-%s" (let c = List.length orders in if c = 1 then "1" else if c < 6 then "2-5" else "6+"));
   if fin > 0 then tag "with-finalisation";
+  tag (if via_state then "via-BlockState" else "via-BlockTree");
   let prop_ok = (!bad = []) in
   let first_diff =
     if model_eq then "" else begin
@@ -137,4 +141,40 @@ let check inp obs =
     detail = (if prop_ok && model_eq then "" else
                 String.concat " | " (List.rev !bad) ^ (if first_diff = "" then "" else " || " ^ first_diff)) }
 
-let () = run_driver check
+(* vm_compute cross-check: each insertion order replayed inside Coq (run of
+   coq/BlockTree/Model.v) must give the best block the implementation reported *)
+let coq inp obs =
+  try
+    let f = split_ws inp in
+    let rootnum, nblk, rest = match f with
+      | "t" :: rn :: nb :: rest -> rn, hexi nb, rest
+      | "bs" :: nb :: rest -> "0", hexi nb, rest
+      | _ -> raise Exit in
+    if nblk > 12 then raise Exit;
+    let rec take k l acc = if k = 0 then (List.rev acc, l) else
+        match l with x :: r -> take (k - 1) r (x :: acc) | [] -> raise Exit in
+    let blks_s, rest = take nblk rest [] in
+    let blks = Array.of_list (("0", "0", 0, "0") :: List.map (fun s -> match split '.' s with
+        | [p; nu; k; a] -> (p, nu, hexi k, a) | _ -> raise Exit) blks_s) in
+    let orders = match rest with _ :: os -> os | [] -> raise Exit in
+    let htab, otoks = match split_ws obs with
+      | h :: r when String.length h > 2 && String.sub h 0 2 = "H:" ->
+        Array.of_list (split ',' (String.sub h 2 (String.length h - 2))), r
+      | _ -> raise Exit in
+    let hash_lit i = "(0x" ^ htab.(i) ^ ")%N" in
+    let kind_s = function 0 -> "DPrimary" | 1 -> "DSecondaryPlain" | _ -> "DSecondaryVRF" in
+    let terms = List.map2 (fun o tok ->
+        let order = List.map hexi (split '.' (String.sub o 1 (String.length o - 1))) in
+        let want = (match split ';' (String.sub tok 2 (String.length tok - 2)) with
+            | _ :: best3 :: _ -> (match split '/' best3 with b :: _ -> hexi b | [] -> raise Exit)
+            | _ -> raise Exit) in
+        let adds = List.map (fun i ->
+            let (p, nu, k, a) = blks.(i) in
+            Printf.sprintf "OAdd (mkHeader %s %s (0x%s)%%N %s) (%d)%%Z" (hash_lit i) (hash_lit (hexi p)) nu (kind_s k)
+              (int_of_string ("0x" ^ a))) order in
+        Printf.sprintf "best_matches %s (0x%s)%%N [%s] %s" (hash_lit 0) rootnum (String.concat "; " adds) (hash_lit want))
+        (List.filteri (fun i _ -> i < 4) orders) (List.filteri (fun i _ -> i < 4) otoks) in
+    Some (String.concat " && " terms)
+  with _ -> None
+
+let () = run_driver ~coq check
